@@ -12,6 +12,7 @@
 (***************************************************************************)
 EXTENDS Join, Randomization
 CONSTANTS MaxLen,      \* longest left / right list of the one-join-field family
+          MaxLen3,     \* same for the cross-name family
           MaxLen2,     \* same for the two-join-field family
           Wide,        \* TRUE: the larger record universe (keys "10", "9" as well)
           NCfg, PerCfg \* size of the sample of the option cross product
@@ -106,4 +107,21 @@ Rights1(c) == IF c.mode = "-s" THEN (IF c.ie THEN SortedRL1E ELSE SortedRL1N) EL
 Lefts2(c) == IF c.mode = "-s" THEN (IF c.ie THEN SortedLL2E ELSE SortedLL2N) ELSE LL2
 Rights2(c) == IF c.mode = "-s" THEN (IF c.ie THEN SortedRL2E ELSE SortedRL2N) ELSE RL2
 Case(c, l, r) == [c |-> c, left |-> InstList(l, LF(c)), right |-> InstList(r, RF(c))]
+
+\* ---- the cross-name family: -l and -r differ, and a record of one side carries an ORDINARY field named like the other
+\* side's join field (template name "@o").  On its own side that field is a non-join field: it keeps its name (plus the
+\* side's prefix) in paired and unpaired records alike.  Where the other side's name is also a join field of this side or
+\* an output name (-l lk -r k -j k: a left field k would collide with the renamed lk) the reference says nothing, and the
+\* field is called "w" instead.
+OtherName(fs, ofs, js) == IF ofs # <<>> /\ ofs[1] \notin (Range(fs) \cup Range(js)) THEN ofs[1] ELSE "w"
+InstX(t, fs, ofs, js) == [i \in 1..Len(t) |-> IF t[i][1] = "@o" THEN <<OtherName(fs, ofs, js), t[i][2]>> ELSE Inst(<<t[i]>>, fs)[1]]
+InstListX(s, fs, ofs, js) == [i \in 1..Len(s) |-> InstX(s[i], fs, ofs, js)]
+LT3 == { <<F("#1", "a"), F("@o", "7"), F("x", "1")>>, <<F("#1", "b"), F("@o", "8")>>, <<F("@o", "9"), F("x", "2")>>, <<F("#1", "a"), F("x", "3")>> }
+RT3 == { <<F("#1", "a"), F("y", "1"), F("@o", "6")>>, <<F("#1", "9"), F("@o", "5")>>, <<F("@o", "4"), F("y", "2")>>, <<F("#1", "b"), F("y", "3")>> }
+Configs3 == {Cfg(n, e, lp, rp, NoLk, FALSE, mode, "", ",") :
+               n \in {n \in Names1 : LF(n) # RF(n)}, e \in {e \in Emits : e.ul \/ e.ur}, lp \in {"", "L_"}, rp \in {"", "R_"},
+               mode \in {"", "-s"}}
+Lefts3(c, n) == {s \in Lists(LT3, n) : c.mode = "-s" => SortedBy(Ref1(FALSE), s, <<"#1">>)}
+Rights3(c, n) == {s \in Lists(RT3, n) : c.mode = "-s" => SortedBy(Ref1(FALSE), s, <<"#1">>)}
+CaseX(c, l, r) == [c |-> c, left |-> InstListX(l, LF(c), RF(c), c.j), right |-> InstListX(r, RF(c), LF(c), c.j)]
 =============================================================================
